@@ -512,8 +512,17 @@ impl Finding {
   }
 }
 
+/// Chaos profile for cache workloads: one cache operation passes dozens of hook points
+/// (shard lock, event channel, batcher, maintenance lock), so the per-point delay
+/// probabilities of the channel profiles are scaled down; the PCT change points (long stalls
+/// that pin a thread inside a two-step window) are kept.
 pub fn pick_profile(rng: &mut Rng) -> vh_core::chaos::Profile {
-  vh_core::chaos::Profile::pick(rng)
+  let mut p = vh_core::chaos::Profile::pick(rng);
+  let div = *rng.pick(&[4u32, 8, 16]);
+  p.p_sleep /= div;
+  p.p_yield /= div / 2;
+  p.p_spin /= 2;
+  p
 }
 
 pub mod load;
